@@ -12,14 +12,25 @@ use rand::prelude::SliceRandom;
 use rand::RngCore;
 use serde_json::json;
 
-fn run_real<R: Ord>(n_cases: usize, pop: &Vec<Ind<R>>, rng: &mut SplitMix) -> String { run_real_w(n_cases, pop, rng, true) }
+fn run_real<R: Ord + Clone>(n_cases: usize, pop: &Vec<Ind<R>>, rng: &mut SplitMix) -> String { run_real_w(n_cases, pop, rng, true) }
 
-fn run_real_w<R: Ord>(n_cases: usize, pop: &Vec<Ind<R>>, rng: &mut SplitMix, warm: bool) -> String {
+fn run_real_w<R: Ord + Clone>(n_cases: usize, pop: &Vec<Ind<R>>, rng: &mut SplitMix, warm: bool) -> String {
     let res = std::panic::catch_unwind(std::panic::AssertUnwindSafe(|| -> Result<usize, String> {
         let idx = |r: &Ind<R>| index_of(pop, r).map_or_else(|| Err("NOT-A-MEMBER".to_string()), Ok);
         if let Some(r) = mutants::lexicase(n_cases, pop, rng) { return r.and_then(idx); }
         let sel = Lexicase::new(n_cases);
         let mut w = rng.clone();
+        if warm && pop.len() >= 2 && w.state & 48 == 0 {
+            // the selector value has been used before on a population that lived in the same buffer (same address,
+            // same length) and has been re-scored in place since: only the present contents count
+            let mut buf: Vec<Ind<R>> = (0..pop.len()).map(|i| pop[(i + 1) % pop.len()].clone()).collect();
+            let mut t = SplitMix::derive(w.state, 78);
+            let _ = sel.select(&buf, &mut t);
+            let _ = sel.select(&buf, &mut t);
+            for i in 0..pop.len() { buf[i] = pop[i].clone(); }
+            let r = sel.select(&buf, rng).map_err(|e| e.canon());
+            return r.and_then(|x| index_of(&buf, x).map_or_else(|| Err("NOT-A-MEMBER".to_string()), Ok));
+        }
         if warm { warm_up(&sel, pop, &mut w); }
         sel.select(pop, rng).map_err(|e| e.canon()).and_then(idx)
     }));
